@@ -86,7 +86,7 @@ def gen_scenarios(rng, n, focus):
     return out
 
 
-def run_scenarios(ctx, drv, scenarios, nproc=8, per_timeout=40):
+def run_scenarios(ctx, drv, scenarios, nproc=8, per_timeout=40, flag="-scenarios"):
     """Runs the scenarios in nproc child processes; returns (list of raw trace files, crashed scenario records)."""
     shards = [scenarios[i::nproc] for i in range(nproc)]
     shards = [s for s in shards if s]
@@ -105,7 +105,7 @@ def run_scenarios(ctx, drv, scenarios, nproc=8, per_timeout=40):
                 for s in todo:
                     fh.write(json.dumps(s) + "\n")
             try:
-                r = subprocess.run([drv, "run", "-scenarios", sp, "-out", tp], cwd=ctx.scratch, env=vlib.GOENV,
+                r = subprocess.run([drv, "run", flag, sp, "-out", tp], cwd=ctx.scratch, env=vlib.GOENV,
                                    capture_output=True, text=True, timeout=per_timeout * len(todo) + 30)
                 rc, out, err = r.returncode, r.stdout, r.stderr
             except subprocess.TimeoutExpired as ex:
